@@ -386,6 +386,13 @@ class ProvRecord(object):
             if value is not None:
                 return value
 
+        if isinstance(literal, Literal) and isinstance(literal.datatype, QualifiedName):
+            # The datatype is a qualified name like any other: re-home it so that
+            # its namespace is declared in this bundle
+            datatype = self._bundle.valid_qualified_name(literal.datatype)
+            if datatype is not literal.datatype:
+                return Literal(literal.value, datatype, literal.langtag)
+
         # No conversion possible, return the original value
         return literal
 
